@@ -157,10 +157,15 @@ def check_format(ctx, kind, c, tokens, pts, epoch):
         # strptime with the same format (%s walks day by day from 1970: only within +-130 years of the epoch)
         if "s" in given and not 1840 <= cv["Y"] <= 2100:
             continue
+        # (%s is read back in the system's local zone: formats with %s are also parsed under non-UTC system zones)
+        seam = 0
+        if "s" in given:
+            seam = (0, 330, -210)[(len(fmt) + cv["S"]) % 3]
+            sig = dict(sig, seam=seam)
         ctx.transitions += 1
         impl._H.ticks = 0
         try:
-            with impl.system_zone(0):
+            with impl.system_zone(seam):
                 q = parser().strptime(got, fmt)
         except ValueError as ex:
             if repeated:
